@@ -1,6 +1,7 @@
 package main
 
 import (
+	"strconv"
 	"go/token"
 	"fmt"
 	"go/types"
@@ -622,6 +623,27 @@ func (c *Ctx) appendBuiltin(cc *ssa.CallCommon, args []*Val, rt types.Type, st *
 		} else {
 			addAt = sApp(c.strByteFn(), add.S, k)
 		}
+		if n0, ok0 := idxLit(s.Len); ok0 {
+			if n1, ok1 := idxLit(addLen); ok1 && n0+n1 <= 16 {
+				// both lengths are literals (composite literals, append(s, x)): the new content
+				// is written out element by element, quantifier-free
+				arr := oldRes
+				for t := int64(0); t < n0+n1; t++ {
+					pos := c.idxAdd(res.Off, c.idxConst(t))
+					var v string
+					if t < n0 {
+						v = "(select (select " + m + " " + s.Arr + ") " + c.idxAdd(s.Off, c.idxConst(t)) + ")"
+					} else if add.K == VSlice {
+						v = "(select (select " + m + " " + add.Arr + ") " + c.idxAdd(add.Off, c.idxConst(t-n0)) + ")"
+					} else {
+						v = sApp(c.strByteFn(), add.S, c.idxConst(t-n0))
+					}
+					arr = "(store " + arr + " " + pos + " " + v + ")"
+				}
+				st.over[name] = c.define("hw", sort, "(store "+m+" "+res.Arr+" "+arr+")")
+				continue
+			}
+		}
 		c.assumeHere(fmt.Sprintf("(forall ((j %s)) (! (= (select %s j) (ite %s %s (ite %s %s (select %s j)))) :pattern ((select %s j))))", c.idxSort(), na, isOld, oldAt, isNew, addAt, oldRes, na))
 		st.over[name] = c.define("hw", sort, "(store "+m+" "+res.Arr+" "+na+")")
 	}
@@ -925,4 +947,20 @@ func (c *Ctx) closureOf(v ssa.Value) *closureInfo {
 		return ci
 	}
 	return nil
+}
+
+// idxLit: the value of an index term that is a literal (#x... in bv mode, a numeral in int mode)
+func idxLit(t string) (int64, bool) {
+	if strings.HasPrefix(t, "#x") {
+		v, err := strconv.ParseUint(t[2:], 16, 64)
+		if err != nil || v > 1<<20 {
+			return 0, false
+		}
+		return int64(v), true
+	}
+	v, err := strconv.ParseInt(t, 10, 64)
+	if err != nil || v < 0 || v > 1<<20 {
+		return 0, false
+	}
+	return v, true
 }
